@@ -65,6 +65,17 @@ def expectation_pathdep_put(kind, s, t, v, k):
 MODULE_FN = {"EuropeanOption": "european", "EuropeanBinaryOption": "european_binary",
              "AmericanBinaryOption": "american_binary", "LookbackOption": "lookback"}
 STATE_NAMES = ["log_moneyness", "max_log_moneyness", "time_to_maturity", "volatility"]
+# documented parameter order (signatures / docstrings of pfhedge/nn/functional.py) of the price and delta functionals, and the
+# documented defaults of their trailing parameters
+_ST, _SM = ("log_moneyness", "time_to_maturity", "volatility"), ("log_moneyness", "max_log_moneyness", "time_to_maturity", "volatility")
+POS_ORDER = {
+    "european_price": _ST + ("strike", "call"), "european_delta": _ST + ("call",),
+    "european_binary_price": _ST + ("call",), "european_binary_delta": _ST + ("call", "strike"),
+    "american_binary_price": _SM, "american_binary_delta": _SM + ("strike",),
+    "lookback_price": _SM + ("strike",), "lookback_delta": _SM + ("strike",),
+}
+POS_DEFAULT = {"european_price": {"strike": 1.0, "call": True}, "european_delta": {"call": True}, "european_binary_price": {"call": True},
+               "european_binary_delta": {"call": True, "strike": 1.0}}
 
 
 def derivative_state(torch, spot, vol, K, dt):
@@ -635,6 +646,119 @@ def check(ctx):
         ctx.stats[f"edge:outcome:{'ok' if st == 'ok' else got}"] += 1
         tie.add(case, option, what, build, N, T, markets, deriv, ctor, ov,
                 ("ok", getattr(mod, "call", None), getattr(mod, "strike", float("nan"))), (rst, rres), (st, got))
+    # (e) the functional forms (prices and deltas of all four option types) and the modules' methods called with their arguments
+    #   POSITIONALLY in the documented order (trailing arguments that equal their documented default left out half of the time;
+    #   the strike a number or a tensor; one element or a vector): the quoted value is the value for the GIVEN strike / flag /
+    #   running maximum, i.e. equals the all-keyword call bit for bit, the module form BS<Option>(call, strike).<what>(...)
+    #   (itself called positionally and by keyword), the Lean model (op bs) and, on a subsample, the integrated expected payoff
+    import pfhedge.nn.functional as fnl
+    items3, metas3 = [], []
+    q_ = ctx.tier == "quick"
+    # (the two-dimensional quadrature of the path-dependent payoffs takes seconds per point: thorough tier only)
+    n_or = {"european_price": 4 if q_ else 40, "european_binary_price": 4 if q_ else 40, "american_binary_price": 0 if q_ else 8,
+            "lookback_price": 0 if q_ else 8}
+    for _ in range(240 if ctx.tier == "quick" else 3000):
+        option = g.choice(OPTION_TYPES)
+        what = g.choice(["price", "price", "delta"])
+        fn = MODULE_FN[option] + "_" + what
+        order = POS_ORDER[fn]
+        pd = option in ("LookbackOption", "AmericanBinaryOption")
+        call = True if pd else g.chance(0.5)
+        n_el = g.choice([1, 1, 3])
+        pts = [gen_point(g, pd) for _ in range(n_el)]
+        k = g.choice([pts[0][3], 1.0, 2.5, 0.35])
+        strike_tensor = "strike" in order and g.chance(0.3)
+        vec = lambda i: torch.tensor([p_[i] for p_ in pts], dtype=torch.float64)
+        vals = {"log_moneyness": vec(0), "time_to_maturity": vec(1), "volatility": vec(2), "max_log_moneyness": vec(4),
+                "strike": torch.full((n_el,), k, dtype=torch.float64) if strike_tensor else k, "call": call}
+        if n_el == 1 and g.chance(0.3):      # 0-dimensional tensors
+            vals = {a: (x.reshape(()) if isinstance(x, torch.Tensor) else x) for a, x in vals.items()}
+        args = [vals[a] for a in order]
+        while len(args) > 3 and order[len(args) - 1] in POS_DEFAULT.get(fn, {}) and not isinstance(args[-1], torch.Tensor) \
+                and args[-1] == POS_DEFAULT[fn][order[len(args) - 1]] and g.chance(0.5):
+            args.pop()
+        case = {"fn": fn, "positional": [a for a in order[:len(args)]], "s": [p_[0] for p_ in pts], "t": [p_[1] for p_ in pts],
+                "v": [p_[2] for p_ in pts], "m": [p_[4] for p_ in pts], "k": k, "strike_is_tensor": strike_tensor, "call": call,
+                "shape": list(vals["log_moneyness"].shape)}
+        ctx.case(case, True, tag="positional")
+        ctx.stats[f"positional:{fn}"] += 1
+        ctx.traces += 1
+        f = getattr(fnl, "bs_" + fn)
+        st, pos, mut = call_impl(f, *args)
+        if mut:
+            ctx.mutated("bs_" + fn, mut, case)
+        if st != "ok":
+            ctx.fail(f"bs_{fn} called with its arguments in the documented positional order raised", case, key=f"bs_{fn}:positional:error", detail=pos)
+            continue
+        st, kw, _ = call_impl(f, **{a: vals[a] for a in order})
+        if st != "ok":
+            ctx.fail("bs price raised inside the parameter box", case, key=f"bs_{fn}:error", detail=kw)
+            continue
+        shape = tuple(vals["log_moneyness"].shape)
+        if tuple(pos.shape) != shape or tuple(kw.shape) != shape:
+            ctx.fail(f"bs_{fn} does not return one value per element", case, key=f"bs_{fn}:positional:shape", detail=[list(pos.shape), list(kw.shape)])
+            continue
+        pl, kl = pos.detach().reshape(-1).tolist(), kw.detach().reshape(-1).tolist()
+        if any(float_bits(a) != float_bits(b) and not (a != a and b != b) for a, b in zip(pl, kl)):
+            ctx.fail(f"bs_{fn}(...) with the arguments given positionally in the documented order {order} differs from the same call by keyword "
+                     "(the value quoted is not the one for the given strike / call flag / running maximum)", case, key=f"bs_{fn}:positional",
+                     detail={"positional": pl, "keyword": kl})
+        # the module form, positionally and by keyword
+        st, mod, _ = call_impl(getattr(pnn, "BS" + option), call, k)
+        if st != "ok":
+            ctx.fail("constructing BS<Option>(call, strike) positionally raised", case, key=f"bs_module:{option}:positional:construct", detail=mod)
+            continue
+        if bool(getattr(mod, "call", None)) != call or getattr(mod, "strike", None) != k:
+            ctx.fail("BS<Option>(call, strike) built positionally does not carry the given flag and strike", case,
+                     key=f"bs_module:{option}:positional:construct", detail={"call": getattr(mod, "call", None), "strike": getattr(mod, "strike", None)})
+            continue
+        names = [a for a in order if a not in ("strike", "call")]
+        st1, mpos, _ = call_impl(getattr(mod, what), *[vals[a] for a in names])
+        st2, mkw, _ = call_impl(getattr(mod, what), **{a: vals[a] for a in names})
+        if st1 != "ok" or st2 != "ok":
+            ctx.fail(f"module.{what}() with all inputs given raised", case, key=f"bs_module:{option}:positional:error", detail=[str(mpos)[:100], str(mkw)[:100]])
+            continue
+        ml, mkl = mpos.detach().reshape(-1).tolist(), mkw.detach().reshape(-1).tolist()
+        if tuple(mpos.shape) != shape or any(float_bits(a) != float_bits(b) and not (a != a and b != b) for a, b in zip(ml, mkl)):
+            ctx.fail(f"module.{what}(...) with the inputs given positionally in the documented order differs from the same call by keyword", case,
+                     key=f"bs_module:{option}:positional:{what}", detail={"positional": ml, "keyword": mkl})
+        for i, (a, b) in enumerate(zip(pl, mkl)):
+            if not rel_close(a, b, 1e-9, 1e-11):
+                ctx.fail(f"bs_{fn} called positionally differs from the module form BS{option}(call, strike).{what} at the same inputs", case | {"element": i},
+                         key=f"bs_{fn}:positional:module", detail={"functional": a, "module": b})
+                break
+        for i, p_ in enumerate(pts):
+            if fn != "lookback_delta":          # no closed form in the model (autograd of the price)
+                items3.append((fn, call, [p_[0], p_[1], p_[2], k, p_[4]]))
+                metas3.append((case | {"element": i}, pl[i]))
+        # the defining expectation on a subsample
+        if n_or.get(fn, 0) > 0 and pts[0][1] <= 3.0 and pts[0][2] >= 0.05:
+            n_or[fn] -= 1
+            s, t, v, _, m = pts[0]
+            try:
+                if fn == "european_price":
+                    exp = expectation_terminal((lambda S: max(S - k, 0.0)) if call else (lambda S: max(k - S, 0.0)), s, t, v, k)
+                elif fn == "european_binary_price":
+                    exp = expectation_terminal((lambda S: 1.0 if S >= k else 0.0) if call else (lambda S: 1.0 if S <= k else 0.0), s, t, v, k)
+                elif fn == "american_binary_price":
+                    exp = 1.0 if m >= 0 else expectation_pathdep(lambda ST, M: 1.0 if M >= k else 0.0, s, m, t, v, k, kink=-s / v)
+                else:
+                    exp = expectation_pathdep(lambda ST, M: max(M - k, 0.0), s, m, t, v, k, kink=(max(m, 0.0) - s) / v)
+            except Exception as e:  # noqa
+                raise InternalError("expectation oracle failed: " + repr(e))
+            ctx.stats[f"oracle:positional:{fn}"] += 1
+            if abs(pl[0] - exp) > 2e-6 * max(1.0, k):
+                ctx.fail(f"bs_{fn} called positionally differs from the numerically integrated expected payoff", case | {"element": 0},
+                         key=f"bs_{fn}:positional:expectation", detail={"impl": pl[0], "integral": exp})
+    try:
+        mv3 = model_vals(ctx, items3)
+    except DriverBroken as e:
+        ctx.ties_broken.append({"kind": "driver", "detail": str(e)[:1500]})
+        mv3 = []
+    for (case, got), m_ in zip(metas3, mv3):
+        tol = (1e-10, 1e-12) if case["fn"].endswith("_price") else (1e-9, 1e-11)
+        if isinstance(m_, tuple) or not rel_close(got, m_, *tol):
+            ctx.disagree("bs_positional", case, got, m_)
     tie.compare()
     ctx.stats["bs_module:requests"] = len(tie.reqs)
     return ctx.finish(
